@@ -38,6 +38,12 @@ static long prv_flags[CPU_CHAN_MAX] = {
 	[CPU_CHAN_NRUN] = PRV_ZERO,
 };
 
+static const char *pvt_name[CPU_CHAN_MAX] = {
+	[CPU_CHAN_PID]  = "CPU: PID of the RUNNING thread",
+	[CPU_CHAN_TID]  = "CPU: TID of the RUNNING thread",
+	[CPU_CHAN_NRUN] = "CPU: Number of RUNNING threads",
+};
+
 void
 cpu_init_begin(struct cpu *cpu, int index, int phyid, int is_virtual)
 {
@@ -166,6 +172,26 @@ cpu_connect(struct cpu *cpu, struct bay *bay, struct recorder *rec)
 		long flags = prv_flags[i];
 		if (prv_register(prv, row, type, bay, c, flags)) {
 			err("prv_register failed");
+			return -1;
+		}
+	}
+
+	return 0;
+}
+
+/* Declares in the PCF the event types of the CPU channels that are
+ * written in the PRV trace */
+int
+cpu_create_pcf_types(struct pcf *pcf)
+{
+	for (int i = 0; i < CPU_CHAN_MAX; i++) {
+		long type = chan_type[i];
+
+		if (type == -1)
+			continue;
+
+		if (pcf_add_type(pcf, (int) type, pvt_name[i]) == NULL) {
+			err("pcf_add_type failed");
 			return -1;
 		}
 	}
